@@ -2,6 +2,7 @@ package storage
 
 import (
 	"fmt"
+	"math/big"
 	"sort"
 	"strconv"
 	"strings"
@@ -16,10 +17,28 @@ import (
 // ~200-character keys). Every element is identified by a small integer id:
 //   int: id            str: id.toString() + 190 x 'x'            arr: [id, id+1]
 // so the Go model is a []int (arrays) or map[int]int (dictionaries).
+//
+// Element kinds whose every element is too large to be stored inline in its
+// container, so that even a one-element, single-slab container refers to its
+// elements through slab ids:
+//   bigint:  Int   2^4096 + id            biguint: UInt 2^4096 + id (dictionary keys UInt64)
+//   bigstr:  String id.toString() + 890 x 'x'
+//   bigkey:  {Int: Int} with keys 2^4096 + id and small values
 
 const c20FillLen = 190
 
 var c20Fill = strings.Repeat("x", c20FillLen)
+
+const c20BigFillLen = 890
+
+var c20BigFill = strings.Repeat("x", c20BigFillLen)
+
+// 2^4096
+var c20Huge = new(big.Int).Lsh(big.NewInt(1), 4096)
+
+func c20HugeStr(id int) string {
+	return new(big.Int).Add(c20Huge, big.NewInt(int64(id))).String()
+}
 
 type c20Kind struct {
 	Cont string `json:"cont"` // array | const | dict
@@ -31,16 +50,23 @@ func (k c20Kind) String() string { return k.Cont + "/" + k.Elem }
 // Cadence types of key, value, and of an element read through a reference
 func (k c20Kind) vType() string {
 	switch k.Elem {
-	case "int", "strkey":
+	case "int", "strkey", "bigint", "bigkey":
 		return "Int"
-	case "str":
+	case "biguint":
+		return "UInt"
+	case "str", "bigstr":
 		return "String"
 	}
 	return "[Int]"
 }
 func (k c20Kind) kType() string {
-	if k.Elem == "strkey" {
+	switch k.Elem {
+	case "strkey":
 		return "String"
+	case "biguint":
+		if k.Cont == "dict" {
+			return "UInt64"
+		}
 	}
 	return "Int"
 }
@@ -64,12 +90,22 @@ func c20Contract(k c20Kind) string {
 		ER = "&[Int]"
 	}
 	var sb strings.Builder
-	sb.WriteString("access(all) contract M {\n  access(all) let fill: String\n")
-	sb.WriteString("  init() { var s = \"\"; var i = 0; while i < 19 { s = s.concat(\"xxxxxxxxxx\"); i = i + 1 }; self.fill = s }\n")
+	sb.WriteString("access(all) contract M {\n  access(all) let fill: String\n  access(all) let bigFill: String\n  access(all) let huge: Int\n  access(all) let hugeU: UInt\n")
+	sb.WriteString("  init() { var s = \"\"; var i = 0; while i < 19 { s = s.concat(\"xxxxxxxxxx\"); i = i + 1 }; self.fill = s\n")
+	sb.WriteString("    while i < 89 { s = s.concat(\"xxxxxxxxxx\"); i = i + 1 }; self.bigFill = s\n")
+	sb.WriteString("    self.huge = 1 << 4096; self.hugeU = UInt(1) << 4096 }\n")
 	sb.WriteString("  access(all) view fun mkS(_ id: Int): String { return id.toString().concat(self.fill) }\n")
 	sb.WriteString("  access(all) view fun idS(_ e: String): Int { if e.length <= 190 { return -1 }; return Int.fromString(e.slice(from: 0, upTo: e.length - 190)) ?? -2 }\n")
 	switch k.Elem {
-	case "int", "strkey":
+	case "bigint":
+		sb.WriteString("  access(all) view fun mk(_ id: Int): Int { return self.huge + id }\n  access(all) view fun id(_ e: Int): Int { return e - self.huge }\n  access(all) view fun idv(_ e: Int): Int { return e - self.huge }\n")
+	case "biguint":
+		sb.WriteString("  access(all) view fun mk(_ id: Int): UInt { return self.hugeU + UInt(id) }\n  access(all) view fun id(_ e: UInt): Int { return Int(e) - self.huge }\n  access(all) view fun idv(_ e: UInt): Int { return Int(e) - self.huge }\n")
+	case "bigstr":
+		sb.WriteString("  access(all) view fun mk(_ id: Int): String { return id.toString().concat(self.bigFill) }\n")
+		sb.WriteString("  access(all) view fun id(_ e: String): Int { if e.length <= 890 { return -1 }; return Int.fromString(e.slice(from: 0, upTo: e.length - 890)) ?? -2 }\n")
+		sb.WriteString("  access(all) view fun idv(_ e: String): Int { return self.id(e) }\n")
+	case "int", "strkey", "bigkey":
 		sb.WriteString("  access(all) view fun mk(_ id: Int): Int { return id }\n  access(all) view fun id(_ e: Int): Int { return e }\n  access(all) view fun idv(_ e: Int): Int { return e }\n")
 	case "str":
 		sb.WriteString("  access(all) view fun mk(_ id: Int): String { return self.mkS(id) }\n  access(all) view fun id(_ e: String): Int { return self.idS(e) }\n  access(all) view fun idv(_ e: String): Int { return self.idS(e) }\n")
@@ -80,6 +116,10 @@ func c20Contract(k c20Kind) string {
 	}
 	if k.Elem == "strkey" {
 		sb.WriteString("  access(all) view fun mkK(_ id: Int): String { return self.mkS(id) }\n  access(all) view fun idK(_ e: String): Int { return self.idS(e) }\n")
+	} else if k.Elem == "bigkey" {
+		sb.WriteString("  access(all) view fun mkK(_ id: Int): Int { return self.huge + id }\n  access(all) view fun idK(_ e: Int): Int { return e - self.huge }\n")
+	} else if k.Elem == "biguint" && k.Cont == "dict" {
+		sb.WriteString("  access(all) view fun mkK(_ id: Int): UInt64 { return UInt64(id) }\n  access(all) view fun idK(_ e: UInt64): Int { return Int(e) }\n")
 	} else {
 		sb.WriteString("  access(all) view fun mkK(_ id: Int): Int { return id }\n  access(all) view fun idK(_ e: Int): Int { return e }\n")
 	}
@@ -176,17 +216,24 @@ func (m c20Model) sum(k c20Kind) string {
 // rendering of an element exactly as rtx.Dump renders the stored value
 func c20DumpElem(elem string, id int) string {
 	switch elem {
-	case "int", "strkey":
+	case "int", "strkey", "bigkey":
 		return strconv.Itoa(id)
+	case "bigint", "biguint":
+		return c20HugeStr(id)
 	case "str":
 		return "\"" + strconv.Itoa(id) + c20Fill + "\""
+	case "bigstr":
+		return "\"" + strconv.Itoa(id) + c20BigFill + "\""
 	}
 	return fmt.Sprintf("([Int])[%d, %d]", id, id+1)
 }
 
 func c20DumpKey(elem string, id int) string {
-	if elem == "strkey" {
+	switch elem {
+	case "strkey":
 		return "\"" + strconv.Itoa(id) + c20Fill + "\""
+	case "bigkey":
+		return c20HugeStr(id)
 	}
 	return strconv.Itoa(id)
 }
